@@ -418,7 +418,7 @@ pub fn run(tier: Tier) -> Report {
     ];
     let mut levels = vec![];
     for (i, cfg) in picks.iter().enumerate() {
-        let bound = if i < 2 { 2 } else { tier.pick(1, 2) };
+        let bound = if i < 3 { 2 } else { tier.pick(1, 2) };
         let run_one = |prefix: &[usize]| -> RunOutcome {
             let (res, viol, _, oor) = run_cfg(cfg, &fs, prefix);
             RunOutcome { outcome_hash: sim::trace_hash(&res, ""), wire_events: res.wire.len() as u64, violations: viol, out_of_range: oor, choices: res.choices }
